@@ -177,11 +177,13 @@ class CliDriver:
             return {"crash": rc}
         return json.loads(line)
 
-    def cli(self, argv, cwd):
-        """run the real `typeshare` main with argv in cwd"""
+    def cli(self, argv, cwd, pin=False):
+        """run the real `typeshare` main with argv in cwd; pin=True: on one CPU, so that the parallel walk
+        delivers files in one reproducible order"""
         env = dict(os.environ)
         env.pop("VERIF_DRIVER", None)
-        pr = subprocess.run([self.exe] + list(argv), cwd=cwd, capture_output=True, text=True, timeout=120, env=env)
+        pre = ["taskset", "-c", "0"] if pin and shutil.which("taskset") else []
+        pr = subprocess.run(pre + [self.exe] + list(argv), cwd=cwd, capture_output=True, text=True, timeout=120, env=env)
         return pr.returncode, pr.stdout, pr.stderr
 
     def close(self):
